@@ -2626,7 +2626,12 @@ ZSTD_reduceTable_internal (U32* const table, U32 const size, U32 const reducerVa
     __msan_unpoison(table, size * sizeof(U32));
 #endif
 
-    for (rowNb=0 ; rowNb < nbRows ; rowNb++) {
+    for (rowNb=0 ; rowNb < nbRows ; rowNb++)
+    ZSTD_VERIF_LOOP(
+        __CPROVER_assigns(rowNb, cellNb, __CPROVER_object_whole(table))
+        __CPROVER_loop_invariant(0 <= rowNb && rowNb <= nbRows && cellNb == rowNb * ZSTD_ROWSIZE)
+        __CPROVER_decreases(nbRows - rowNb))
+    {
         int column;
         for (column=0; column<ZSTD_ROWSIZE; column++) {
             U32 newVal;
